@@ -689,6 +689,10 @@ class FnTr:
             raise Unsupported(f"field .{e[2]}")
         if k == "index":
             if e[2][0] == "range":
+                if e[2][1] is None and e[2][2] is None:
+                    v = self.expr(e[1])            # `a[..]`: the whole array as a slice
+                    if isinstance(v.ty, tuple) and v.ty[0] in ("arr", "slice"):
+                        return v
                 raise Unsupported("a slice used as a value")
             return self.read_elem(e[1], e[2])
         if k == "deref":
@@ -1928,6 +1932,10 @@ class FnTr:
                 elems = [Val(f"{lname(n)}_{i}", ty[1]) for i in range(ty[2])]
                 self.scope.declare(n, Var(n, ty, None, elems=elems))
                 params += [f"({x.lean} : {lean_ty(ty[1])})" for x in elems]
+            elif ty in (("named", "Self"), ("named", self.u.sinfo.name)) and not mr:
+                # another value of the unit's struct (`rhs: &Self` of PartialEq::eq)
+                self.scope.declare(n, Var(n, ("named", "Self"), lname(n)))
+                params.append(f"({lname(n)} : {self.u.sinfo.lean})")
             else:
                 if isinstance(ty, tuple) and ty[0] == "arr" and not isinstance(ty[2], int):
                     raise Unsupported(f"array parameter of unknown length {ty[2]}")
